@@ -43,6 +43,32 @@ fn run_c01(out: &mut Out, tier: &str, rng: &mut Rng) {
     out.rule.push_str("; authority level: real NetworkAuthority (recv / tick / command clones) with 1-2 hydraulic units whose timeouts are absent / expired / far away: random histories of motion commands, cycles, the unit's own status frames, foreign frames and engine commands");
 }
 
+const AUTH_NOTE: &str = "; authority level: random configurations of known units under the real NetworkAuthority (receive / tick / command clones), random histories of unit frames, the same frames from foreign nodes, random frames, cycles, motion and engine commands, compared event by event with the authority model";
+
+fn run_c02(out: &mut Out, tier: &str, rng: &mut Rng) {
+    c02::run(out, tier, rng);
+    authgen::run_generic_auth(out, tier, rng, "motion frames");
+    out.rule.push_str(AUTH_NOTE);
+}
+
+fn run_c08(out: &mut Out, tier: &str, rng: &mut Rng) {
+    drv::run_c08(out, tier, rng);
+    authgen::run_generic_auth(out, tier, rng, "engine frames");
+    out.rule.push_str(AUTH_NOTE);
+}
+
+fn run_c11(out: &mut Out, tier: &str, rng: &mut Rng) {
+    drv::run_c11(out, tier, rng);
+    authgen::run_generic_auth(out, tier, rng, "attribution");
+    out.rule.push_str(AUTH_NOTE);
+}
+
+fn run_c12(out: &mut Out, tier: &str, rng: &mut Rng) {
+    drv::run_c12(out, tier, rng);
+    authgen::run_generic_auth(out, tier, rng, "decoding");
+    out.rule.push_str(AUTH_NOTE);
+}
+
 fn run_c06(out: &mut Out, tier: &str, rng: &mut Rng) {
     drv::run_c06(out, tier, rng);
     authgen::run_c06_auth(out, tier, rng);
@@ -65,20 +91,20 @@ fn main() {
     let mut rng = Rng::new(seed);
     let f: fn(&mut Out, &str, &mut Rng) = match prop {
         "C01" => run_c01,
-        "C02" => c02::run,
+        "C02" => run_c02,
         "C03" => c03::run,
         "C04" => c04::run,
         "C05" => c05::run,
         "C14" => c14::run,
         "C06" => run_c06,
         "C07" => c07::run,
-        "C08" => drv::run_c08,
+        "C08" => run_c08,
         "C09" => c09::run,
         "C10" => authgen::run_c10,
-        "C11" => drv::run_c11,
+        "C11" => run_c11,
         "C19" => c19::run,
         "C20" => authgen::run_c20,
-        "C12" => drv::run_c12,
+        "C12" => run_c12,
         "C13" => c13::run,
         "C15" => c15::run,
         "C16" => c16::run,
